@@ -195,9 +195,23 @@ fn run_target(rep: &Report, local: &mut Local, t: &Target) {
     local.nontrivial.insert(universe::fnv(&serde_json::to_string(t).unwrap()));
 }
 
-fn targets() -> Vec<Target> {
+fn targets(thorough: bool) -> Vec<Target> {
     let mut v = Vec::new();
-    for case in corpus() {
+    let mut cases = corpus();
+    if thorough {
+        // every single-coordinate deviation of the universe base points with a small block size
+        let uni = universe::Universe::new(1, false, true);
+        for sh in &uni.shards {
+            uni.for_each_in_shard(sh, |p| {
+                let mut c = universe::decode(p);
+                if c.input.bs <= 64 && c.input.ch <= 3 {
+                    c.input.full = c.input.full.min(1);
+                    cases.push(c);
+                }
+            });
+        }
+    }
+    for case in cases {
         let samples = case.input.samples();
         let Ok(s) = subject::encode(&case, &samples, Mode::St) else { continue };
         for what in ["stream", "stream_precomputed", "stream_with_metadata", "stream_info", "metadata"] {
@@ -228,7 +242,7 @@ pub fn run(args: &Args, rep: &Arc<Report>) {
         rep.set_rule("replay: every k for one recorded target");
         return;
     }
-    let ts = targets();
+    let ts = targets(args.tier == "thorough");
     let n = ts.len();
     par_for(
         rep,
@@ -243,5 +257,5 @@ pub fn run(args: &Args, rep: &Arc<Report>) {
         },
     );
     rep.extra("targets", json!(n));
-    rep.set_rule("targets: 5 streams (1/2/8 channels, constant+verbatim+fixed+LPC subframes, 2-3 frames) as whole streams (plain, with precomputed frames, with an extra metadata block), STREAMINFO, a metadata block, and every frame (plain/precomputed), frame header, subframe and residual of them; for each target and each of three sink flavours (required methods only / all methods / failing only in write_bytes_aligned) the sink fails on operation k for EVERY k in 0..N (N = operations of a full write, measured); oracle: write returns Err(OutputError::Sink), no panic, the bits accepted before the failure are a prefix of the reference bit string; non-trivial = a target whose sweep ran");
+    rep.set_rule("targets (thorough: plus every single-coordinate deviation of the universe base points with block size <= 64 and <= 3 channels): 5 streams (1/2/8 channels, constant+verbatim+fixed+LPC subframes, 2-3 frames) as whole streams (plain, with precomputed frames, with an extra metadata block), STREAMINFO, a metadata block, and every frame (plain/precomputed), frame header, subframe and residual of them; for each target and each of three sink flavours (required methods only / all methods / failing only in write_bytes_aligned) the sink fails on operation k for EVERY k in 0..N (N = operations of a full write, measured); oracle: write returns Err(OutputError::Sink), no panic, the bits accepted before the failure are a prefix of the reference bit string; non-trivial = a target whose sweep ran");
 }
